@@ -336,13 +336,35 @@ func removesNUL(g *ssa.Function) bool {
 // c10Classify: O-4.
 func c10Classify(c *Ctx) {
 	r := c.R
-	ld := c.P.Func("internal/database", "", "LoadDatabase")
+	loadEntry := c.P.Func("internal/database", "", "LoadDatabase")
+	ld := commandLoader(c) // where the file is read and decoded: LoadDatabase or its helper
 	cl := c.P.Func("internal/errors", "", "NewDatabaseErrorWithContext")
-	if !r.Anchor("O-4", "database.LoadDatabase", ld != nil) || !r.Anchor("O-4", "errors.NewDatabaseErrorWithContext", cl != nil) {
+	if !r.Anchor("O-4", "database.LoadDatabase", loadEntry != nil && ld != nil) || !r.Anchor("O-4", "errors.NewDatabaseErrorWithContext", cl != nil) {
 		return
 	}
 	fk := "database.LoadDatabase"
-	errIdx := 1
+	errIdx := errorIndex(ld)
+	if ld != loadEntry {
+		// LoadDatabase hands the helper's verdict on unchanged
+		n := 0
+		for _, call := range callsTo(loadEntry, ssau.FuncName(ld)) {
+			n++
+			ok, why := failurePropagates(call)
+			ev := errValue(call)
+			same := true
+			succ, _ := nilTests(ev)
+			reach := blocksReachable(call.Block(), succ)
+			for _, ret := range ssau.ReturnsOf(loadEntry) {
+				if reach[ret.Block()] && ssau.ResultValue(ret, errorIndex(loadEntry)) != ev {
+					same = false
+				}
+			}
+			r.Check(ok && same, "O-4", fk+"#passes-on-the-loader-verdict", c.P.Pos(call.Pos()), "a failure of "+ld.Name()+" is returned as it is", "LoadDatabase does not return the loader's own error: "+why)
+		}
+		if n == 0 {
+			r.Bad("O-4", fk+"#passes-on-the-loader-verdict", c.P.Pos(loadEntry.Pos()), "LoadDatabase does not call the function that reads and decodes the file")
+		}
+	}
 	// each failing step returns the classifier's verdict for its own operation and error
 	for _, step := range []struct{ callee, op string }{{"os.ReadFile", "read"}, {"gopkg.in/yaml.v3.Unmarshal", "parse"}} {
 		calls := callsTo(ld, step.callee)
